@@ -13,7 +13,7 @@ package account
 //@ func NewRegistry
 //@   trusted
 //@   modifies nothing
-//@   ensures result != nil && fresh(result) && result.index != nil && result.swaps != nil && fresh(result.index) && fresh(result.swaps)
+//@   ensures result != nil && fresh(result) && result.index != nil && result.swaps != nil && fresh(result.index) && fresh(result.swaps) && live(result.index) && live(result.swaps)
 //
 //@ func (*Registry).Get
 //@   trusted
